@@ -7,9 +7,13 @@
   Quantification: every schema IR, every history (list of operations), every operation (list of
   builder expressions of any size and depth), every store — no size bound anywhere.
 
-  The property is FALSE on the pinned tree (five findings).  Hence:
+  The property is FALSE on the pinned tree (four open findings F1, F3, F4, F5; F2 - variables of fields
+  nested deeper than two levels were never declared - was repaired by /repo commit dfbc7ef, and its old
+  region now belongs to the theorem).  Hence:
     `C14_full`        the property at full strength,
-    `C14_full_false`  refuted from one concrete witness per finding (F1 … F5),
+    `C14_full_false`  refuted from one concrete witness per open finding (F1, F3, F4, F5),
+    `C14_F2_witness_now_ok`  the old F2 witness satisfies the property (regression theorem);
+                      `C14_F2_old_behaviour_violates`: the pre-repair `get_formatted_variables` does not,
     `C14_partial`     the property outside the finding triggers (`Supported_14`), narrowed by the explicitly
                       named `Proved_14` (no mutator on a class-level object anywhere in the history or the
                       operation — stronger than ¬F4, which only forbids *re-using* a mutated accessor;
@@ -17,6 +21,7 @@
                       and oracle only.
 -/
 import AriadneModel.Proofs.C14Total
+import AriadneModel.Proofs.C14Old
 
 set_option linter.unusedSimpArgs false
 set_option linter.unusedVariables false
@@ -82,17 +87,26 @@ theorem fresh_never_raises (p : Package) (H : List Op) (E : Op)
   exact ⟨d, by rw [(getLast_runOps p H E hH).1, hd]⟩
 
 /-- `declared_once_and_bound` + the recorded type: one client call over a process whose class-level objects
-    are untouched, a tree carrying no argument below level 2 (¬F2) and no variable name shared between two
-    top-level fields (¬F5): substituting (declared type, sent value) for every variable of the document gives
-    back the tree of field objects — each field's name, alias, its non-None arguments with recorded type and
-    the caller's value, its selections; every variable is used exactly once; the definitions are exactly the
-    used variables; and the process is left as it was found. -/
+    are untouched, a tree of ANY depth (fields, sub-fields, members of inline fragments, nested without bound)
+    with no variable name shared between two top-level fields (¬F5): substituting (declared type, sent value)
+    for every variable of the document gives back the tree of field objects — each field's name, alias, its
+    non-None arguments with recorded type and the caller's value, its selections; every variable is used exactly
+    once; the definitions are exactly the used variables; and the process is left as it was found.
+    (Until dfbc7ef this needed "no argument below level 2": finding C14-F2, fixed.) -/
 theorem declared_once_and_bound (st : Store) (hp : Pristine st) (ty nm : String) (nodes : List Node) (d : Doc) (st' : Store)
-    (h : execOp ty nm st nodes = .ok (d, st'))
-    (hdeep : NoVarsBelowList 2 nodes = true) (hclash : crossClash d.sels = false) :
+    (h : execOp ty nm st nodes = .ok (d, st')) (hclash : crossClash d.sels = false) :
     resolveDoc d = some (intendedList st nodes) ∧ (docVars d).Nodup ∧ d.varDefs.map (·.1) = docVars d ∧ st' = st := by
-  obtain ⟨a, b, c, e, -, -⟩ := execOp_bound hp ty nm nodes d st' h hdeep hclash
+  obtain ⟨a, b, c, e, -, -⟩ := execOp_bound hp ty nm nodes d st' h hclash
   exact ⟨b, c, e, a⟩
+
+/-- non-vacuity: an argument at level 4, inside an inline fragment, is declared and bound -/
+example : ∃ d st', execOp "query" "Op" []
+    [.obj { cls := "Q", fieldName := "search", vars := [{ key := "text", ty := "String", value := .str "a" }] } []
+      [.mk "Dog" [.obj { cls := "D", fieldName := "owner" }
+        [.obj { cls := "U", fieldName := "posts" }
+          [.obj { cls := "P", fieldName := "title", vars := [{ key := "maxLen", ty := "Int", value := .num 3 0 }] } [] []] []] []]]]
+    = .ok (d, st') ∧ crossClash d.sels = false ∧ d.varDefs = [("text_0", "String"), ("maxLen_0", "Int")] :=
+  ⟨_, _, rfl, by decide, by decide⟩
 
 /-! ## The generators -/
 
@@ -216,10 +230,10 @@ def ValidInput (s : Schema) (H : List Op) (E : Op) : Prop :=
 
 def C14_full : Prop := ∀ (s : Schema) (H : List Op) (E : Op), ValidInput s H E → GoodAfter s H E
 
-/-- outside every finding trigger (one decidable predicate per open finding of findings.d/C14.json) -/
+/-- outside every finding trigger (one decidable predicate per OPEN finding of findings.d/C14.json; the
+    trigger of the fixed finding F2, `trigDeepList 1 E.fields`, is gone: its region belongs to the theorem) -/
 def Supported_14 (s : Schema) (H : List Op) (E : Op) : Prop :=
   ¬ (trigListArgList (genPackage s) E.fields = true            -- F1 listArg
-     ∨ trigDeepList 1 E.fields = true                           -- F2 deepVars
      ∨ trigPyNameList (genPackage s) E.fields = true            -- F3 pyName
      ∨ trigSharedMut H E = true                                 -- F4 sharedMut
      ∨ trigClash ((runOps (genPackage s) (H ++ [E])).getLast?.getD (.error .recursion)) = true)  -- F5 nameClash
@@ -243,11 +257,11 @@ theorem C14_partial (s : Schema) (H : List Op) (E : Op)
   obtain ⟨d, hd⟩ := fresh_never_raises (genPackage s) H E hpr.1 hpr.2 hI
   unfold Supported_14 at hsup
   simp only [not_or, Bool.not_eq_true] at hsup
-  obtain ⟨h1, h2, h3, -, h5⟩ := hsup
+  obtain ⟨h1, h3, -, h5⟩ := hsup
   rw [hd] at h5
   simp only [Option.getD_some, trigClash] at h5
   obtain ⟨g1, g2, g3, g4, g5, g6, g7⟩ :=
-    op_good (genPackage s) H E d (genPackage_sharedExact s) hpr.1 hpr.2 h1 h2 h3 hd h5
+    op_good (genPackage s) H E d (genPackage_sharedExact s) hpr.1 hpr.2 h1 h3 hd h5
   refine ⟨d, hd, g1, g3, g4, ?_, g7⟩
   unfold ValidExpr at hvalid
   rw [← g5] at hvalid
@@ -257,7 +271,7 @@ theorem C14_partial (s : Schema) (H : List Op) (E : Op)
     exact valid_of_resolved s d rs root hroot (by rw [g1, hint]) hvalid.1 hvalid.2 g3 g4
   · simp at hvalid
 
-/-! ## Witnesses: one schema, one operation per finding -/
+/-! ## Witnesses: one schema, one operation per finding (open or fixed) -/
 
 namespace W
 
@@ -293,7 +307,9 @@ def schema : Schema :=
                      { name := "tags", py := "tags", ty := .list (nn "String") }] },
           { name := "a", py := "a", opPy := "a", ty := .named "Item", args := [] },
           { name := "b", py := "b", opPy := "b", ty := .named "Item",
-            args := [{ name := "n_0", py := "n_0", ty := .named "String" }] }] }],
+            args := [{ name := "n_0", py := "n_0", ty := .named "String" }] },
+          { name := "search", py := "search", opPy := "search", ty := .named "Pet",
+            args := [{ name := "text", py := "text", ty := .named "String" }] }] }],
     query := some "Query", mutation := none }
 
 def uid : Expr := .attr "UserFields" "id"
@@ -302,7 +318,7 @@ def q (name : String) (fs : List Expr) : Op := { opType := "query", name := name
 
 /-- F1  `Query.users(order_by=["ASC"], tags=["x"]).fields(UserFields.id)` -/
 def opF1 : Op := q "Op" [.fields (.call "Query" "users" [("order_by", .arr [.str "ASC"]), ("tags", .arr [.str "x"])]) [uid]]
-/-- F2  `Query.me().fields(UserFields.posts().fields(PostFields.title(max_len=3)))` -/
+/-- F2 (fixed)  `Query.me().fields(UserFields.posts().fields(PostFields.title(max_len=3)))` -/
 def opF2 : Op := q "Op" [me [.fields (.call "UserFields" "posts" []) [.call "PostFields" "title" [("max_len", .num 3 0)]]]]
 /-- F3  `Query.me().fields(UserFields.best_friend().fields(UserFields.id))` -/
 def opF3 : Op := q "Op" [me [.fields (.call "UserFields" "best_friend" []) [uid]]]
@@ -350,11 +366,17 @@ example : resolvedText [] opF1 = some "users(orderBy: Order! = [\"ASC\",] tags: 
 example : intendedText opF1 = some "users(orderBy: [Order!]! = [\"ASC\",] tags: [String!] = [\"x\",]) { id() } " := by decide
 example : trigListArgList (genPackage schema) opF1.fields = true := by decide
 
-/-- F2: `$maxLen_0` is used at depth 3 and never declared: the document does not even resolve -/
-theorem F2_witness : ¬ GoodAfter schema [] opF2 := fun g => absurd (texts_agree g) (by decide)
-example : sentText [] opF2 = some "query Op() { me() { posts() { title(maxLen: $maxLen_0) } } } " := by decide
-example : resolvedText [] opF2 = none := by decide
+/-- F2 (FIXED by dfbc7ef): `$maxLen_0`, used at depth 3, is declared and bound now -/
+example : sentText [] opF2 = some "query Op($maxLen_0: Int) { me() { posts() { title(maxLen: $maxLen_0) } } } maxLen_0:3e-0," := by decide
+example : resolvedText [] opF2 = intendedText opF2 := by decide
+/-- the old trigger predicate still recognises the input (the harness uses it to MEASURE how many generated
+    operations lie in the region the theorem gained) -/
 example : trigDeepList 1 opF2.fields = true := by decide
+
+/-- … whereas the code before the repair sent a document that uses `$maxLen_0` without declaring it:
+    it does not even resolve -/
+example : (Old.freshDoc (genPackage schema) opF2).map showDoc
+    = some "query Op() { me() { posts() { title(maxLen: $maxLen_0) } } } " := by decide
 
 /-- F3: `best_friend` instead of `bestFriend` -/
 theorem F3_witness : ¬ GoodAfter schema [] opF3 := fun g => absurd (texts_agree g) (by decide)
@@ -393,20 +415,39 @@ theorem C14_full_false : ¬ C14_full := by
   subst hop
   exact W.witnesses_valid _ (by simp)
 
-/-- each finding refutes the property on its own -/
+/-- each open finding refutes the property on its own -/
 theorem C14_full_false_each :
     (ValidInput W.schema [] W.opF1 ∧ ¬ GoodAfter W.schema [] W.opF1) ∧
-    (ValidInput W.schema [] W.opF2 ∧ ¬ GoodAfter W.schema [] W.opF2) ∧
     (ValidInput W.schema [] W.opF3 ∧ ¬ GoodAfter W.schema [] W.opF3) ∧
     (ValidInput W.schema [W.opF4h] W.opF4 ∧ ¬ GoodAfter W.schema [W.opF4h] W.opF4) ∧
     (ValidInput W.schema [] W.opF4r ∧ ¬ GoodAfter W.schema [] W.opF4r) ∧
     (ValidInput W.schema [] W.opF5 ∧ ¬ GoodAfter W.schema [] W.opF5) := by
   have v := W.witnesses_valid
-  refine ⟨⟨?_, W.F1_witness⟩, ⟨?_, W.F2_witness⟩, ⟨?_, W.F3_witness⟩, ⟨?_, W.F4_witness⟩, ⟨?_, W.F4r_witness⟩, ⟨?_, W.F5_witness⟩⟩
+  refine ⟨⟨?_, W.F1_witness⟩, ⟨?_, W.F3_witness⟩, ⟨?_, W.F4_witness⟩, ⟨?_, W.F4r_witness⟩, ⟨?_, W.F5_witness⟩⟩
   all_goals
     intro op hop
     simp only [List.nil_append, List.cons_append, List.mem_cons, List.mem_singleton, List.not_mem_nil, or_false] at hop
     rcases hop with rfl | rfl <;> exact v _ (by simp)
+
+/-! ## Regression theorems for the fixed finding F2 -/
+
+/-- the old F2 witness (`Query.me().fields(UserFields.posts().fields(PostFields.title(max_len=3)))`, an argument
+    at depth 3) now satisfies the property at full strength: it lies inside the region of `C14_partial` -/
+theorem C14_F2_witness_now_ok : ValidInput W.schema [] W.opF2 ∧ GoodAfter W.schema [] W.opF2 := by
+  refine ⟨?_, C14_partial W.schema [] W.opF2 (by decide) (by unfold Supported_14; decide) (by unfold Proved_14; decide)⟩
+  intro op hop
+  simp only [List.nil_append, List.mem_singleton] at hop
+  subst hop
+  exact W.witnesses_valid _ (by simp)
+
+/-- the behaviour before dfbc7ef (`Proofs/C14Old.lean`: the recursive result of `get_formatted_variables`
+    discarded) violates the property on that witness: the document it sends uses a variable that is neither
+    declared nor bound, so it cannot be resolved to what the expression says.  A re-introduction of the defect
+    therefore cannot go unnoticed by the correspondence (the model no longer produces this document). -/
+theorem C14_F2_old_behaviour_violates :
+    ∃ d, Old.freshDoc (genPackage W.schema) W.opF2 = some d ∧ (resolveDoc d).isNone = true ∧
+      (Intended (genPackage W.schema) W.opF2).isSome = true ∧ "maxLen_0" ∈ docVars d ∧ d.varDefs = [] := by
+  refine ⟨_, rfl, by decide, by decide, by decide, by decide⟩
 
 /-! ## Non-vacuity of `C14_partial`: a non-trivial operation satisfying every hypothesis -/
 
@@ -417,6 +458,15 @@ def opOK : Op := q "Op" [
   me [uid, .fields (.alias (.call "UserFields" "posts" [("tags", .null)]) "p") [.attr "PostFields" "id"]],
   .fields (.alias (.call "Query" "b" [("n_0", .str "s")]) "other") [.call "ItemFields" "part" [("n", .num 1 0)]]]
 def opHist : Op := q "Op0" [me [uid]]
+/-- inside the region gained by the repair: arguments at levels 3 and 4, below an inline fragment of a fresh
+    union-typed object: `Query.search(text="a").on("Dog", DogFields.owner().fields(UserFields.posts()
+    .fields(PostFields.title(max_len=3)), UserFields.id)).on("Cat", CatFields.name)`, `Query.me().fields(…title(max_len=4)…)` -/
+def opDeep : Op := q "Op" [
+  .on (.on (.call "Query" "search" [("text", .str "a")]) "Dog"
+    [.fields (.call "DogFields" "owner" [])
+      [.fields (.call "UserFields" "posts" []) [.call "PostFields" "title" [("max_len", .num 3 0)]], uid]])
+    "Cat" [.attr "CatFields" "name"],
+  me [.fields (.call "UserFields" "posts" []) [.alias (.call "PostFields" "title" [("max_len", .num 4 0)]) "t"]]]
 end W
 
 example : ValidExpr W.schema (genPackage W.schema) W.opOK = true := by decide
@@ -428,5 +478,13 @@ example : W.sentText [W.opHist] W.opOK = some
 /-- … so `C14_partial` applies to it: -/
 example : GoodAfter W.schema [W.opHist] W.opOK :=
   C14_partial W.schema [W.opHist] W.opOK (by decide) (by unfold Supported_14; decide) (by unfold Proved_14; decide)
+
+/-- … and to an operation of the region the repair added (arguments at depth 3 and 4, inline fragments): -/
+example : trigDeepList 1 W.opDeep.fields = true := by decide
+example : W.sentText [W.opHist] W.opDeep = some
+    "query Op($text_0: String $maxLen_0: Int $maxLen_1: Int) { search(text: $text_0) { ... on Dog { owner() { posts() { title(maxLen: $maxLen_0) } id() } } ... on Cat { name() } } me() { posts() { t: title(maxLen: $maxLen_1) } } } text_0:\"a\",maxLen_0:3e-0,maxLen_1:4e-0," := by
+  decide
+example : GoodAfter W.schema [W.opHist] W.opDeep :=
+  C14_partial W.schema [W.opHist] W.opDeep (by decide) (by unfold Supported_14; decide) (by unfold Proved_14; decide)
 
 end Ariadne.C14
